@@ -18,7 +18,21 @@
 // Everything here is deterministic: no wall clock is read on any path whose result is compared (ServerProcessLoop reads
 // the clock only for pulse scheduling / cycle start stamps, which are not dumped), the PRNG is pinned at link time.
 //
-// Usage example: harness/reflector_l1_selftest.cpp.
+// API in short (namespace l1; usage example: harness/reflector_l1_selftest.cpp):
+//   L1World w;                               fresh server (build one per replay); ~L1World detaches everything
+//   w.GrantPrivilege(priv, hostPattern)      before Attach: PR_PRIVILEGE_* for sessions of matching hosts
+//   w.Attach(role, host, sessionId)          role 0..7; session node = /host/sessionId; w.Root(role) gives that path
+//   w.makeSession = fn                       optional factory for a harness-specific subclass of l1::Session
+//   w.Inject(role, msg) / InjectMany         deliver Message(s) as the gateway would (fresh Message per injection)
+//   w.Drain(role) -> vector<MessageRef>      everything sent to that client since the last Drain; w.Pending(role) = queue length
+//   w.Depart(role)                           drain + EndSession + Step(); w.Step() = ServerProcessLoop(0), returns roles the server detached (KICK)
+//   w.S(role)                                the Session* (protected/private members of StorageReflectSession are reachable)
+//   w.Dump(DumpOpts) / CanonPath / IndexOf / WalkTree / RootNode / CheckQuiescent / CheckTreeInvariants    in-process reads
+//   builders: SetData AddData RemoveData GetData GetDataTrees GetParameters SetParameters AddSubscribe AddSubscribeQuietly
+//             AddMaxUpdateItems AddFlagParam AddDefaultRoute Subscribe Unsubscribe UnsubscribeAll RemoveParameters EscapeParamName
+//             Batch InsertOrderedData ReorderData AddReorder Ping Noop JettisonResults JettisonDataTrees Keyed(what, keys, filters)
+//             Payload(v) EmptyPayload(what) Flags(bits) FilterArchive Int32Filter WhatCodeFilter Keys(a[,b[,c]]) NewMsg(what)
+//   parsing:  ParseDataItems ApplyDataItems ParseIndexUpdated MsgText Flat IsVolatileFieldName RankGeneratedNames IsGeneratedName
 #ifndef VERIF_REFLECTOR_L1_H
 #define VERIF_REFLECTOR_L1_H
 
